@@ -473,6 +473,38 @@ func c18WriteBack(c *Ctx, p *Prog) {
 	} else {
 		ob.HoldNT("success requires writeJSONServerState(js) ok")
 	}
+	// the bridge line the operator hands out describes the state that is served: nothing of the state is
+	// filled in after the summary file was written
+	obB := c.Obl("R3", "transports/obfs4:serverStateFromJSONServerState#bridgeline-from-final-state", "newBridgeFile is called with the finished server state: no field of the state is stored after that call")
+	badB, nB := "", 0
+	allInstrs(fn, func(in ssa.Instruction) {
+		ci, ok := in.(ssa.CallInstruction)
+		if !ok {
+			return
+		}
+		sc := ci.Common().StaticCallee()
+		if sc == nil || sc.Name() != "newBridgeFile" {
+			return
+		}
+		nB++
+		allInstrs(fn, func(in2 ssa.Instruction) {
+			st, ok := in2.(*ssa.Store)
+			if !ok {
+				return
+			}
+			if k, ok := fieldAddrKey(st.Addr); ok && k.Type == "transports/obfs4.obfs4ServerState" && canReachWithout(in, in2, nil) {
+				badB = "obfs4ServerState." + k.Field + " is stored at " + p.InstrPos(in2) + ", after the bridge line file was written at " + p.InstrPos(in) + ": the file advertises the zero value"
+			}
+		})
+	})
+	switch {
+	case nB == 0:
+		obB.Undecide("no newBridgeFile call")
+	case badB != "":
+		obB.Violate("%s", badB)
+	default:
+		obB.HoldNT("no store to the state after newBridgeFile")
+	}
 	// a start that is rejected leaves the state file as it was: nothing can fail after the write-back
 	// except the write itself (the file holds the only copy of the identity key)
 	obV := c.Obl("R3", "transports/obfs4:serverStateFromJSONServerState#validated-before-written", "the state is written back only after everything that can reject it has passed: no failure return is reachable after writeJSONServerState other than through its own error")
